@@ -693,7 +693,8 @@ def run(ctx):
         SCHED.uninstall()
     ctx.extra.pop('_slice', None)
     pairs = ctx.extra.pop('_pairs', set())
-    ctx.extra['distinct_preemption_locations'] = len(pairs)
+    # (per shard: the sets of the shards overlap, their sizes must not be added up)
+    ctx.extra['distinct_preemption_locations_per_shard'] = {'shard %d' % ctx.shard: len(pairs)}
     if ctx.shard == 0:
         secs = {'quick': 1.5, 'thorough': 20}[ctx.tier]
         for name in ('S1-two-sigtools-on-wraps', 'S2-sigtools-vs-inspect-on-wraps', 'S3b-two-inspect-on-decorator-object',
